@@ -634,7 +634,7 @@ theorem stepThread_inv (s : St) (t : Thread) (hs : Inv s) (ht : TInv s.completed
     | open_ =>
       simp only [stepThread]
       split
-      · exact ⟨same, trivial, fun p hp => hp⟩
+      · exact ⟨same, (fun x hx => by cases hx), fun p hp => hp⟩
       · next x hx =>
         refine ⟨same, ?_, fun p hp => hp⟩
         intro y hy
@@ -642,7 +642,9 @@ theorem stepThread_inv (s : St) (t : Thread) (hs : Inv s) (ht : TInv s.completed
         exact hst _ (mem_of_sLookup _ _ _ hx)
     | read =>
       cases seen with
-      | none => exact ⟨same, by intro x hx; cases hx, fun p hp => hp⟩
+      | none =>
+        simp only [stepThread, if_true]
+        exact ⟨same, (fun x hx => by cases hx), fun p hp => hp⟩
       | some y =>
         refine ⟨⟨hst, ?_⟩, ht, fun p hp => hp⟩
         intro p hp
@@ -751,8 +753,8 @@ theorem lookup_insert (st : List (Nat × Nat)) (k v k' : Nat) :
   unfold lookup Cache.Part.insert erase
   by_cases h : k' = k
   · subst h
-    rw [find_cons_eq _ _ _ rfl]; simp
-  · rw [find_cons_ne _ _ _ (fun e => h e.symm), find_filter_ne _ _ _ h]; simp [h]
+    rw [find_cons_eq (k', v) _ k' rfl]; simp
+  · rw [find_cons_ne (k, v) _ k' (fun e => h e.symm), find_filter_ne _ _ _ h]; simp [h]
 
 theorem lookup_erase (st : List (Nat × Nat)) (k k' : Nat) :
     lookup (erase st k) k' = if k' = k then none else lookup st k' := by
@@ -832,7 +834,7 @@ theorem stepThread_inv (s : St) (t : Thread) (hs : Inv s) (ht : TInv s.puts t) :
         intro v' hv'
         cases hv'
         exact hi _ (mem_of_lookup _ _ _ hv)
-      · refine ⟨⟨hi, hc, ?_⟩, by intro v hv; cases hv, fun p hp => hp⟩
+      · refine ⟨⟨hi, hc, ?_⟩, (fun v hv => by cases hv), fun p hp => hp⟩
         intro id' v' hp
         simp only [List.mem_cons, Prod.mk.injEq] at hp
         rcases hp with ⟨_, h0⟩ | hp
@@ -840,7 +842,9 @@ theorem stepThread_inv (s : St) (t : Thread) (hs : Inv s) (ht : TInv s.puts t) :
         · exact hr id' v' hp
     | fill =>
       cases sn with
-      | none => exact ⟨same, by intro v hv; cases hv, fun p hp => hp⟩
+      | none =>
+        simp only [stepThread]
+        exact ⟨same, (fun v hv => by cases hv), fun p hp => hp⟩
       | some v =>
         refine ⟨⟨hi, ?_, ?_⟩, ht, fun p hp => hp⟩
         · intro p hp
@@ -859,6 +863,195 @@ theorem stepThread_inv (s : St) (t : Thread) (hs : Inv s) (ht : TInv s.puts t) :
     | 1 => exact ⟨⟨hi, fun p hp => hc p (mem_erase' _ _ _ hp), hr⟩, trivial, fun p hp => hp⟩
     | _ + 2 => exact ⟨same, trivial, fun p hp => hp⟩
 
+
+def GInv (s : St) : Prop := Inv s ∧ ∀ t ∈ s.threads, TInv s.puts t
+
+theorem tinv_mono {puts puts' : List (Nat × Nat)} (h : ∀ p ∈ puts, p ∈ puts') (t : Thread) (ht : TInv puts t) :
+    TInv puts' t := by
+  cases t with
+  | get id pc sn => exact fun v hv => h _ (ht v hv)
+  | put id v pc => exact fun hpc => h _ (ht hpc)
+  | delete => trivial
+
+theorem step_ginv (s : St) (i : Nat) (h : GInv s) : GInv (step s i) := by
+  unfold step
+  cases hti : s.threads[i]? with
+  | none => exact h
+  | some t =>
+    have htm : t ∈ s.threads := List.mem_of_getElem? hti
+    obtain ⟨h1, h2, h3⟩ := stepThread_inv s t h.1 (h.2 t htm)
+    have hthr := stepThread_threads s t
+    constructor
+    · exact ⟨h1.inner, h1.cache, h1.ret⟩
+    · intro t' ht'
+      simp only [hthr] at ht'
+      rcases List.mem_or_eq_of_mem_set ht' with hm | hm
+      · exact tinv_mono h3 t' (h.2 t' hm)
+      · subst hm; exact h2
+
+theorem run_ginv (s : St) (sched : List Nat) (h : GInv s) : GInv (run s sched) := by
+  induction sched generalizing s with
+  | nil => exact h
+  | cons i is ih => exact ih _ (step_ginv s i h)
+
+/-- A call that has not started yet. -/
+def fresh : Thread → Prop
+  | .put _ _ pc => pc = 0
+  | .get _ pc sn => pc = .lookup ∧ sn = none
+  | .delete _ pc => pc = 0
+
+theorem tinv_fresh (puts : List (Nat × Nat)) (t : Thread) (h : fresh t) : TInv puts t := by
+  cases t with
+  | put id v pc => simp only [fresh] at h; subst h; intro h0; omega
+  | get id pc sn => simp only [fresh] at h; obtain ⟨_, h2⟩ := h; subst h2; intro v hv; cases hv
+  | delete => trivial
+
+/-- **getpart_returns_only_put_bytes.** For any number of PutPart/GetPart/DeletePart calls on any ids and EVERY
+interleaving of their steps (inner store, cache entry, after-commit hook, late fill): whatever bytes a
+GetPart returns for an id were written by some PutPart under that very id — never a foreign or invented value. -/
+theorem getpart_returns_only_put_bytes (ts : List Thread) (hts : ∀ t ∈ ts, fresh t) (sched : List Nat) :
+    ∀ id v, (id, some v) ∈ (run (init ts) sched).returned → (id, v) ∈ (run (init ts) sched).puts := by
+  have h0 : GInv (init ts) := by
+    refine ⟨⟨?_, ?_, ?_⟩, ?_⟩
+    · intro p hp; simp [init] at hp
+    · intro p hp; simp [init] at hp
+    · intro id v hp; simp [init] at hp
+    · intro t ht; exact tinv_fresh _ t (hts t (by simpa [init] using ht))
+  exact (run_ginv _ sched h0).1.ret
+
+/-! ### calls that do not overlap -/
+
+/-- The part store without a cache: what each GetPart of a sequential history must answer. -/
+def ref : List (Nat × Nat) → List Thread → List (Nat × Option Nat)
+  | _, [] => []
+  | inner, .put id v _ :: ts => ref (Cache.Part.insert inner id v) ts
+  | inner, .get id _ _ :: ts => (id, lookup inner id) :: ref inner ts
+  | inner, .delete id _ :: ts => ref (erase inner id) ts
+
+/-- Cache coherence between calls. -/
+def Coh (s : St) : Prop := ∀ id v, lookup s.cache id = some v → lookup s.inner id = some v
+
+theorem runToEnd_fresh (s : St) (t : Thread) (hc : Coh s) (hf : fresh t) :
+    Coh (runToEnd s t) ∧
+    (runToEnd s t).inner = (match t with
+      | .put id v _ => Cache.Part.insert s.inner id v
+      | .get _ _ _ => s.inner
+      | .delete id _ => erase s.inner id) ∧
+    (runToEnd s t).returned = (match t with
+      | .get id _ _ => (id, lookup s.inner id) :: s.returned
+      | _ => s.returned) := by
+  cases t with
+  | put id v pc =>
+    simp only [fresh] at hf; subst hf
+    refine ⟨?_, rfl, rfl⟩
+    intro id' v' h
+    simp only [runToEnd, stepThread] at h ⊢
+    rw [lookup_insert] at h ⊢
+    split at h
+    · next e => rw [if_pos e]; exact h
+    · next e => rw [if_neg e]; exact hc id' v' h
+  | delete id pc =>
+    simp only [fresh] at hf; subst hf
+    refine ⟨?_, rfl, rfl⟩
+    intro id' v' h
+    simp only [runToEnd, stepThread] at h ⊢
+    rw [lookup_erase] at h ⊢
+    split at h
+    · cases h
+    · next e => rw [if_neg e]; exact hc id' v' h
+  | get id pc sn =>
+    simp only [fresh] at hf; obtain ⟨h1, h2⟩ := hf; subst h1 h2
+    cases hl : lookup s.cache id with
+    | some v =>
+      have hin := hc id v hl
+      simp only [runToEnd, stepThread, hl, hin]
+      exact ⟨hc, trivial, trivial⟩
+    | none =>
+      cases hin : lookup s.inner id with
+      | none =>
+        simp only [runToEnd, stepThread, hl, hin]
+        exact ⟨hc, trivial, trivial⟩
+      | some v =>
+        simp only [runToEnd, stepThread, hl, hin]
+        refine ⟨?_, trivial, trivial⟩
+        intro id' v' h
+        simp only [] at h ⊢
+        rw [lookup_insert] at h
+        split at h
+        · next e => subst e; rw [hin]; exact h
+        · exact hc id' v' h
+
+/-- **getpart_bytes_or_notfound_partial.** When the calls do not overlap (each finishes before the next
+starts — in particular no DeletePart/PutPart between a read miss and its late cache fill), every GetPart
+answers exactly what the inner store holds under the id at that moment: the bytes stored there, or
+not-found — never stale after a delete or an overwrite. -/
+theorem getpart_bytes_or_notfound_partial (ts : List Thread) (hts : ∀ t ∈ ts, fresh t) (s : St) (hc : Coh s) :
+    (serial s ts).returned = (ref s.inner ts).reverse ++ s.returned := by
+  induction ts generalizing s with
+  | nil => simp [serial, ref]
+  | cons t ts ih =>
+    obtain ⟨h1, h2, h3⟩ := runToEnd_fresh s t hc (hts t (by simp))
+    have := ih (fun t' ht' => hts t' (by simp [ht'])) (runToEnd s t) h1
+    simp only [serial]
+    rw [this, h2, h3]
+    cases t <;> simp [ref]
+
+/-- **Witness** (known finding `C19.partstore-late-fill-serves-stale-bytes`; realised on the real cache part
+store by scripted schedule 0): a GetPart that missed is still streaming when a DeletePart of the id
+completes; its late fill puts the deleted bytes back, and a GetPart issued afterwards returns them although
+the inner store has nothing under the id. -/
+theorem late_fill_serves_deleted_part :
+    let s := run { init [.get 0 .lookup none, .delete 0 0, .get 0 .lookup none] with inner := [(0, 7)], puts := [(0, 7)] }
+      [0, 0, 1, 1, 0, 2]
+    s.inner = [] ∧ s.returned = [(0, some 7), (0, some 7)] := by decide
+
+/-- Non-vacuity of the sequential theorem: the same three calls, not overlapping, answer `7` then not-found. -/
+example : (serial { init [] with inner := [(0, 7)], puts := [(0, 7)] }
+    [.get 0 .lookup none, .delete 0 0, .get 0 .lookup none]).returned = [(0, none), (0, some 7)] := by decide
+
 end Part
+
+/-! ## §E lock discipline (T1 table) -/
+section Locks
+open Pithos.Gen.CacheLocks
+
+/-- Every access to the eviction policy's state (heap, checker maps) happens with `GenericCache.mu` held. -/
+theorem policy_state_under_mu : ∀ c ∈ calls, c.2.1 = "policy" → c.2.2.2 = true := by decide
+
+/-- `Get` and `Remove` hold `mu` across their persistor call. -/
+theorem get_and_remove_hold_mu : ∀ c ∈ calls, (c.1 = "Get" ∨ c.1 = "Remove") → c.2.2.2 = true := by decide
+
+/-- The step boundaries of the atomic-step model are those of the code: in `Set` the eviction removals and
+`persistor.Store` (and the clean-up Remove after a failed Store) run WITHOUT `mu`; nothing else does. -/
+theorem persistor_calls_outside_mu :
+    (calls.filter (fun c => c.2.1 == "persistor" && !c.2.2.2)).map (fun c => (c.1, c.2.2.1))
+      = [("Set", "Remove"), ("Set", "Store"), ("Set", "Remove"), ("Set", "Remove")] := by decide
+
+/-- `Set` releases `mu` with plain `Unlock()` calls: a panic under the lock leaves it locked (`poisoned`). -/
+theorem set_unlock_is_not_deferred : setUnlockDeferred = false := by decide
+
+/-- The source shapes the model is instantiated from are ones it knows. -/
+theorem lfu_variant_recognised :
+    (guardedOfCond lfuLoopCond).isSome = true ∧ (dedupeOfRemoves lfuRemovesBeforeLoop).isSome = true := by decide
+
+/-- Race freedom as a checkable discipline: persistor calls made outside `mu` are race-free exactly when the
+persistor synchronises itself. `raceFree` is evaluated by the driver on every run (it is `false` for the
+in-memory persistor of the current tree: known finding `C19.lock-discipline-inmemory-persistor-unsynchronised`). -/
+def raceFree : Bool :=
+  (calls.all (fun c => c.2.1 != "persistor" || c.2.2.2)) || inmemoryMapAccesses.all (·.2)
+
+theorem raceFree_sound (h : raceFree = true) :
+    (∀ c ∈ calls, c.2.1 = "persistor" → c.2.2.2 = true) ∨ (∀ a ∈ inmemoryMapAccesses, a.2 = true) := by
+  unfold raceFree at h
+  rcases Bool.or_eq_true_iff.1 h with h1 | h1
+  · left
+    intro c hc hp
+    have := List.all_eq_true.1 h1 c hc
+    simpa [hp] using this
+  · right
+    intro a ha
+    exact List.all_eq_true.1 h1 a ha
+
+end Locks
 
 end Pithos.C19
